@@ -110,3 +110,50 @@ def make_case(rng, n, cplx, spectrum, start):
         v = np.real(v) if np.linalg.norm(np.real(v)) > 0 else np.abs(v)
     v = v * float(rng.choice([1.0, 1e-3, 1e3]))
     return A, v
+
+
+CALLABLE_STYLES = ['fresh', 'fresh', 'shared-buffer', 'readonly', 'strided', 'argument-when-identity']
+
+
+def make_callable(rng, A, style=None):
+    """
+    Matrix-free map for the matrix A in one of the ways user code hands maps over: a fresh array per call, one preallocated output buffer reused
+    for every call, a read-only result, a non-contiguous (strided) result, and -- for identity blocks -- the argument itself / a view of it
+    (`lambda x: x`). The iteration must not depend on owning the returned array. Returns (callable, style, call counter list).
+    """
+    n = A.shape[0]
+    style = style or str(rng.choice(CALLABLE_STYLES))
+    calls = [0]
+    if style == 'argument-when-identity' and not np.array_equal(A, np.identity(n)):
+        style = 'fresh'
+    if style == 'fresh':
+        def f(x):
+            calls[0] += 1
+            return A @ x
+    elif style == 'shared-buffer':
+        buf = np.zeros(n, dtype=complex)
+
+        def f(x):
+            calls[0] += 1
+            buf[:] = A @ x
+            return buf
+    elif style == 'readonly':
+        def f(x):
+            calls[0] += 1
+            y = A @ x
+            y.flags.writeable = False
+            return y
+    elif style == 'strided':
+        big = np.zeros(2 * n, dtype=complex)
+
+        def f(x):
+            calls[0] += 1
+            big[::2] = A @ x
+            return big[::2]
+    else:
+        view = bool(rng.random() < 0.5)
+
+        def f(x):
+            calls[0] += 1
+            return x[:] if view else x
+    return f, style, calls
